@@ -344,6 +344,17 @@ func (m *MonC20) OnLog(w *World, e *LogEntry) {
 	if (e.Kind == "mq_close" || e.Kind == "mq_lost") && m.faultStep < 0 {
 		// the boundary log shows the fault before OnStepEnd does
 	}
+	if e.Kind == "stop_probe" {
+		m.class("request_while_stopping")
+		if e.Code != 503 {
+			m.viols = append(m.viols, Violation{Property: "C20", Class: "http_accepted_while_stopping", Step: e.Step, T: e.T, Conn: -1,
+				Message: fmt.Sprintf("an HTTP request made while Stop was in progress was answered with status %d (-1 = not answered within 300ms), expected 503", e.Code)})
+		}
+		if e.Err != "ws_accepted=false" {
+			m.viols = append(m.viols, Violation{Property: "C20", Class: "websocket_accepted_while_stopping", Step: e.Step, T: e.T, Conn: -1,
+				Message: "a WebSocket handshake made while Stop was in progress was accepted"})
+		}
+	}
 }
 
 func (m *MonC20) OnEnd(w *World) []Violation {
@@ -385,6 +396,8 @@ func c20Post() []Op {
 // C20Faults: Stop and loss of the messaging connection.
 func C20Faults(w *World) [][]Op {
 	fs := [][]Op{{{K: "stop"}}, {{K: "lose"}}}
+	// a new WebSocket handshake and HTTP request while Stop is in progress
+	fs = append(fs, []Op{{K: "stop", O: "probe"}})
 	// Stop while the messaging client still delivers an event for a cached resource
 	for _, d := range w.Cfg.Resources {
 		if d.QueryMap == nil && !d.PerCID && !d.Missing {
